@@ -22,11 +22,12 @@ structure LogGrow (l l' : RaftLog) : Prop where
   inv : l'.Inv
   last : l.lastIndex ≤ l'.lastIndex
   commit : l.committed ≤ l'.committed
+  first : l.firstIndex ≤ l'.firstIndex
 
 theorem PW.grow {a r : Raft} {l : RaftLog} (hl : LogGrow r.raftLog l) (h0 : PW a r) :
     PW a { r with raftLog := l } := by
   refine ⟨hl.inv, h0.nb, fun hs => ?_, fun hs p hp => ?_, fun x hx hty => ?_,
-    fun x hx hty => ?_, h0.sn⟩
+    fun x hx hty => ?_, h0.sn, Nat.le_trans h0.fi hl.first, h0.qf⟩
   · rcases h0.po hs with c | c
     · exact .inl c
     · exact .inr (c.mono hl.last)
@@ -43,7 +44,7 @@ theorem PW.grow {a r : Raft} {l : RaftLog} (hl : LogGrow r.raftLog l) (h0 : PW a
 theorem PW.ro {a r : Raft} {ro : ReadOnly} (h0 : PW a r)
     (hr : r.state = .leader → ∀ p ∈ ro.pendingReadIndex, p.2.index ≤ r.raftLog.committed) :
     PW a { r with readOnly := ro } :=
-  ⟨h0.inv, h0.nb, h0.po, hr, h0.qa, h0.qr, h0.sn⟩
+  ⟨h0.inv, h0.nb, h0.po, hr, h0.qa, h0.qr, h0.sn, h0.fi, h0.qf⟩
 
 /-! ### `maybe_commit`, `append_entry` -/
 
@@ -88,9 +89,11 @@ theorem appendEntry_lw {a r r' : Raft} {es : List Entry} {b : Bool}
   obtain ⟨l, u, he⟩ := appendEntry_shape h
   have hg : LogGrow r.raftLog r'.raftLog := by
     rcases appendEntry_cases h0.1.inv h0.2 h with ⟨_, c⟩ | ⟨_, _, c, _⟩ | ⟨_, c, _⟩
-    · rw [c]; exact ⟨h0.1.inv, Nat.le_refl _, Nat.le_refl _⟩
-    · exact ⟨c.inv h0.1.inv, Nat.le_of_eq c.last.symm, c.commit⟩
-    · exact ⟨c.inv, by rw [c.last]; omega, c.commit⟩
+    · rw [c]; exact ⟨h0.1.inv, Nat.le_refl _, Nat.le_refl _, Nat.le_refl _⟩
+    · exact ⟨c.inv h0.1.inv, Nat.le_of_eq c.last.symm, c.commit, by
+        rw [(c.inv h0.1.inv).firstIndex_abs, h0.1.inv.firstIndex_abs, c.abs]; exact Nat.le_refl _⟩
+    · exact ⟨c.inv, by rw [c.last]; omega, c.commit, by
+        rw [c.inv.firstIndex_abs, h0.1.inv.firstIndex_abs, c.abs]; exact Nat.le_refl _⟩
   have hl : r'.raftLog = l := by rw [he]
   rw [hl] at hg
   rw [he]
@@ -109,9 +112,10 @@ theorem send_rir_lw {a r r' : Raft} {m : Message} (h : r.send m = .ok r')
     LW a r' := by
   refine ⟨?_, (send_frame h Frame.rfl).state.trans h0.2⟩
   rw [send_eq r r' m h]
-  refine h0.1.push _ (fun hc => ?_) (fun _ => ?_)
+  refine h0.1.push _ (fun hc => ?_) (fun _ => ?_) (fun hc => ?_)
   · rw [sendFill_msgType, hm] at hc; cases hc
   · rw [sendFill_index]; exact hi
+  · rw [sendFill_msgType, hm] at hc; cases hc
 
 theorem handleReadyReadIndex_lw {a r r' : Raft} {req : Message} {i : Nat} {om : Option Message}
     (h : r.handleReadyReadIndex req i = .ok (r', om)) (h0 : LW a r) :
